@@ -108,6 +108,7 @@ Section LayerX.
   Variable fix_vary : bool.                                 (* [handle_vary_missing] applies the admission test *)
   Variable fix_ovkey : bool.                                (* the insert key is built from the URI that was looked up *)
   Variable fix_clear : bool.                                (* [clear_page] also clears the default-redirect target *)
+  Variable fix_svary : bool.                                (* no vary header on a stream without length in either arm *)
   Variable sfilter : N -> bool.                             (* status filter: true = Drop *)
   Variable parse_ims : bytes -> option Z.
   Variable sanitize_ok : request -> bool.
@@ -126,7 +127,7 @@ Section LayerX.
     end.
 
   (** [clone_preferred] (never for a stream: [compress] is forced to None) + [vary::apply_header].
-      [miss_arm]: the miss arm skips the vary header of a stream without length. *)
+      [miss_arm]: before the repair only the miss arm skipped the vary header of a stream without length. *)
   Definition finishX (r : request) (x : fatx) (lm cached miss_arm : bool) : replyx :=
     match (if is_stream x then None else negotiate r x) with
     | Some (st, body) =>
@@ -136,7 +137,7 @@ Section LayerX.
     | None =>
         {| rx_status := f_status (fx_fat x);
            rx_headers := f_headers (fx_fat x) ++
-                         (if miss_arm && match fx_stream x with Some None => true | _ => false end then []
+                         (if (miss_arm || fix_svary) && match fx_stream x with Some None => true | _ => false end then []
                           else vary_header r x);
            rx_pad := fx_pad x; rx_body := f_body (fx_fat x); rx_ipad := fx_pad x; rx_identity := f_body (fx_fat x);
            rx_last_modified := lm; rx_from_cache := cached; rx_stream := fx_stream x |}
@@ -382,7 +383,7 @@ Definition clear_alias_fix (r : request) : option request :=
 
 Record configx := mkCfgX {
   cx_base : config; cx_xhandlers : list xhandler; cx_sfilter : N; cx_ovprime : option (bytes * bytes);
-  cx_fix_vary : bool; cx_fix_ovkey : bool; cx_fix_clear : bool }.
+  cx_fix_vary : bool; cx_fix_ovkey : bool; cx_fix_clear : bool; cx_fix_svary : bool }.
 
 Definition d_configx (x : xval) : option configx :=
   match d_config x, x with
@@ -392,7 +393,7 @@ Definition d_configx (x : xval) : option configx :=
       let ovp := match kv_get (B "ovprime") l with Some (XL [XB n; XB p]) => Some (n, p) | _ => None end in
       match xh with
       | Some xh' => Some (mkCfgX base xh' sf ovp (negb (kv_flag (B "v0_vary") l false)) (negb (kv_flag (B "v0_ovkey") l false))
-                                 (negb (kv_flag (B "v0_clear") l false)))
+                                 (negb (kv_flag (B "v0_clear") l false)) (negb (kv_flag (B "v0_svary") l false)))
       | None => None
       end
   | _, _ => None
@@ -438,7 +439,18 @@ Definition x_obsx (report : list bytes) (o : obsx) : xval :=
 Definition run_cfgx (cache_on : bool) (cx : configx) (ops : list opx) : list obsx :=
   let cfg := cx_base cx in
   runX (list N) (compute_x (cf_default_ext cfg) (cf_handlers cfg) (cx_xhandlers cx)) cache_on (cf_ims cfg)
-       (cx_fix_vary cx) (cx_fix_ovkey cx) (cx_fix_clear cx)
+       (cx_fix_vary cx) (cx_fix_ovkey cx) (cx_fix_clear cx) (cx_fix_svary cx)
+       (sfilter_fix (cx_sfilter cx)) parse_ims_fix sanitize_ok_fix
+       (if cf_default_ext cfg then uri_redirect else (fun r => r))
+       (override_x (cf_default_ext cfg) (cx_ovprime cx))
+       (fun _ _ => None)
+       (vary_tuple_fix (cf_vary cfg)) (vary_header_x (cf_vary cfg)) clear_alias_fix
+       ([], repeat 0 (length (cf_handlers cfg) + 8)) (cf_phase cfg) ops.
+
+Definition run_cfgx_state (cache_on : bool) (cx : configx) (ops : list opx) : (cachex * list N) * N :=
+  let cfg := cx_base cx in
+  runX_state (list N) (compute_x (cf_default_ext cfg) (cf_handlers cfg) (cx_xhandlers cx)) cache_on (cf_ims cfg)
+       (cx_fix_vary cx) (cx_fix_ovkey cx) (cx_fix_clear cx) (cx_fix_svary cx)
        (sfilter_fix (cx_sfilter cx)) parse_ims_fix sanitize_ok_fix
        (if cf_default_ext cfg then uri_redirect else (fun r => r))
        (override_x (cf_default_ext cfg) (cx_ovprime cx))
